@@ -423,6 +423,79 @@ def run_real(res, fallback, n, hits):
         res.case(case if n >= 2 else None)
 
 
+def nested(res, fallback):
+    """A configured cache may itself be a FallbackClient - or a subclass of it that does something of its own (namespaces keys,
+    counts, logs): it is one cache in the configured order, consulted and written through its own methods."""
+    log = []
+
+    class Recording(fallback.FallbackClient):
+        def __init__(self, caches, tag):
+            fallback.FallbackClient.__init__(self, caches)
+            self.tag = tag
+
+    def rec(name):
+        def m(self, *a, **k):
+            log.append((self.tag, name, a, k))
+            return getattr(fallback.FallbackClient, name)(self, *a, **k)
+        return m
+    for nm in READS + list(WRITES):
+        setattr(Recording, nm, rec(nm))
+    for hits in itertools.product((False, True), repeat=3):
+        for shape in ("first-is-nested", "second-is-nested", "both-nested"):
+            del log[:]
+            inner_log = []
+            c = [Cache(i, hits[i], inner_log) for i in range(3)]
+            if shape == "first-is-nested":
+                caches, order = [Recording([c[0], c[1]], "A"), c[2]], ["A", 2]
+            elif shape == "second-is-nested":
+                caches, order = [c[0], Recording([c[1], c[2]], "B")], [0, "B"]
+            else:
+                caches, order = [Recording([c[0]], "A"), Recording([c[1], c[2]], "B")], ["A", "B"]
+            fc = fallback.FallbackClient(caches)
+            case = ("nested", hits, shape)
+            for op in READS:
+                del log[:]
+                del inner_log[:]
+                arg = ["k1", "k2"] if op.endswith("many") else "k1"
+                try:
+                    r = getattr(fc, op)(arg)
+                except Exception as e:
+                    res.violation("nested:read-raises:" + op, "%s raised %r" % (op, e), case)
+                    continue
+                res.count("reads_checked")
+                res.count("cache_calls_logged", len(log) + len(inner_log))
+                consulted = [e[0] for e in inner_log]
+                first = next((i for i in range(3) if hits[i]), None)
+                want = list(range(3 if first is None else first + 1))
+                if consulted != want:
+                    res.violation("nested:wrong-caches-consulted:" + op, "hits %r, %s: inner caches consulted %r, expected %r" % (hits, shape, consulted, want), case)
+                # every nested client that had to be consulted was consulted through its own method
+                def holds(tag):
+                    return {"A": [0, 1] if shape == "first-is-nested" else [0], "B": [1, 2]}[tag]
+                want_tags = [t for t in order if isinstance(t, str) and (first is None or min(holds(t)) <= first)]
+                got_tags = [e[0] for e in log if e[1] == op]
+                if got_tags != want_tags:
+                    res.violation("nested:configured-cache-bypassed:" + op, "hits %r, %s: nested clients asked %r, expected %r (their inner caches were "
+                                  "consulted %r)" % (hits, shape, got_tags, want_tags, consulted), case)
+            for op, variants in WRITES.items():
+                args, kwargs, want_args = variants[0]
+                del log[:]
+                del inner_log[:]
+                try:
+                    getattr(fc, op)(*args, **kwargs)
+                except Exception as e:
+                    res.violation("nested:write-raises:" + op, "%s raised %r" % (op, e), case)
+                    continue
+                res.count("writes_checked")
+                if [e[0] for e in inner_log] != [0]:
+                    res.violation("nested:write-reaches-fallback:" + op, "%s, %s: inner caches written %r" % (op, shape, [e[0] for e in inner_log]), case)
+                if isinstance(order[0], str) and [e[0] for e in log] != [order[0]]:
+                    res.violation("nested:configured-cache-bypassed:" + op, "%s, %s: the first configured cache is a nested client; calls on nested "
+                                  "clients: %r" % (op, shape, [(e[0], e[1]) for e in log]), case)
+            res.case(case)
+            res.count("nested_configurations")
+
+
 def _codes_of(cls):
     out = []
 
@@ -550,6 +623,8 @@ def shard(tier, seed, idx, n_sh):
         run_session(res, fallback, 2 + si % 3, seed * 100003 + si)
     if idx == n_sh - 1:
         two_threads(res, fallback, tier)
+    if idx == 0:
+        nested(res, fallback)
     res.extra["exhaustive"] = True
     res.extra["exhaustive_part"] = "1..4 caches x all hit/miss assignments x all reads and writes"
     return res
@@ -563,6 +638,8 @@ def replay(case):
         run_session(res, fallback, case[1], case[2])
     elif case[0] == "two-threads":
         two_threads(res, fallback, "quick")
+    elif case[0] == "nested":
+        nested(res, fallback)
     elif case[0] in ("token", "outage"):
         run_token_and_outage(res, fallback, n, hits, case[-1])
     elif case[0].startswith("real"):
